@@ -424,6 +424,16 @@ def nat_sweep(seed, count):
                     m2 = D.bingham_average(O2[perm], ax)
                     if abs(abs(m2 @ m) - 1) > 1e-6:
                         msgs.append(f"bingham[{ax}] changes under reordering / two-fold relabelling")
+                # history: the caller's array is updated in place between two calls (what a texture simulation does with its
+                # orientation buffer); the second call must describe the current contents, i.e. equal the call on a fresh copy
+                Ow = O.copy()
+                D.bingham_average(Ow, ax); D.symmetry_pgr(Ow, ax)
+                Ow[...] = Ow[perm] @ Q.T
+                got = (D.bingham_average(Ow, ax), D.symmetry_pgr(Ow, ax))
+                fresh = Ow.copy()
+                want = (D.bingham_average(fresh, ax), D.symmetry_pgr(fresh, ax))
+                if not (np.allclose(got[0], want[0], atol=1e-12) and np.allclose(got[1], want[1], atol=1e-12)):
+                    msgs.append(f"after an in-place update of the same array, bingham/PGR[{ax}] describe the old contents (differs from the call on a fresh copy)")
             for a1, a2 in (("b", "a"), ("a", "c")):
                 P1, G1, _ = D.symmetry_pgr(O, a1)
                 P2, G2, _ = D.symmetry_pgr(O, a2)
@@ -433,6 +443,12 @@ def nat_sweep(seed, count):
                         msgs.append(f"coaxial index {ba:.3f} outside [0,1]")
                     if abs(D.coaxial_index(O2[perm] @ Q.T, a1, a2) - ba) > 1e-8:
                         msgs.append("coaxial index not invariant")
+                    Ow = O.copy()
+                    D.coaxial_index(Ow, a1, a2)
+                    Ow[...] = (R.from_rotvec(0.5 * rng.normal(size=(n, 3))).as_matrix() @ Ow)
+                    P1w, G1w, _ = D.symmetry_pgr(Ow.copy(), a1); P2w, G2w, _ = D.symmetry_pgr(Ow.copy(), a2)
+                    if G1w + P1w > 1e-9 and G2w + P2w > 1e-9 and abs(D.coaxial_index(Ow, a1, a2) - D.coaxial_index(Ow.copy(), a1, a2)) > 1e-12:
+                        msgs.append("after an in-place update of the same array, the coaxial index describes the old contents")
             F = (np.eye(3) + 0.6 * rng.normal(size=(3, 3))) * float(rng.choice([1.0, 1.0, 0.3, 2.0]))
             if abs(np.linalg.det(F)) > 1e-3:
                 e, v = D.finite_strain(F)
